@@ -66,6 +66,10 @@ CLAIMS["C05"] = dict(
     text="Second sentence of the property only (layout arithmetic): deductive proof that tile sides are multiples of 16 (requested size, or the image side for smaller images, rounded up), num_overviews (loop invariant dim == floor(dim0/2**c), termination) leaves a side that fits a block, compute_cog_spec pads each side upwards by < 2**levels to a multiple of 2**levels, a multiple of 2m halves exactly to a multiple of m (each overview exactly half), cog_gbox/expand keep origin and grid (padding on the right/bottom only), yaxis_from_shape, CogMeta tile grid = ceil division, flat_tile_idx = row-major rank, IndexError exactly outside, injective and onto [0, num_tiles) (lemma); structural obligation: tile bags written in reverse creation order (overviews first), header from _patch_hdr for both sinks.",
     note="NOT decided: that independent TIFF readers decode the original pixels/transform/CRS/nodata (tifffile, imagecodecs, GDAL, dask scheduling). _extract_tile_info (offset table = prefix sums, no gaps/overlaps) and _make_empty_cog (page layout through tifffile) only by BOUNDED native checks (36 pyramids; 240 shape/blocksize/layout combinations incl. single-row/column images); completeness of the observed stream is C06's postcondition; 2**n through the pow2 axioms",
     technique=TECH + "; loop invariant for num_overviews; structural (AST) obligation for the write order", design_ref="DESIGN.md §2 C05")
+CLAIMS["C01"] = dict(
+    text="Deductive proof over an abstract CRS domain (none / symbolic equivalence class per operand) of the guard logic, running the REAL code on stand-in operands: all 16 @wrap_shapely methods, Geometry.split, common_crs, multigeom, unary_union, unary_intersection, geom.intersects (collections of 1-3 operands, every tag combination): a ValueError (CRSMismatchError) is raised iff some operand's CRS differs from the first's (incl. exactly one without a CRS), before anything is combined; otherwise the result is the SAME shapely operation on the raw shapes, tagged with the first operand's CRS. Bounding-box union/intersection, pixel_translation, bounding_box_in_pixel_domain, GeoBox union/intersection/overlap_roi/snap_to carry the same guard in their C16 contracts. Census (structural): every operation of geom.py/geobox.py taking >= 2 CRS-tagged operands has a guard contract or a stated exemption.",
+    note="pyproj CRS equality is ASSUMED to be an equivalence relation; shapely is replaced by a ghost shape algebra (operations are pure and identified by name); 'the same CRS in another spelling compares equal' and agreement with real shapely results are exercised only by the BOUNDED native catalogue (4 CRS tags squared x 4 geometry-kind pairs x 21 operations)",
+    technique=TECH + "; structural census of the API", design_ref="DESIGN.md §2 C01")
 NA = {
     "C09": "xarray object-model behaviour (coords/attrs/encoding propagation); no contract within reach can state it - see DESIGN.md C09",
     "C13": "equality of GDAL warps (whole vs chunked) and dask scheduling; no contract within reach - see DESIGN.md C13",
